@@ -514,6 +514,11 @@ int ares_dup(ares_channel_t **dest, const ares_channel_t *src)
   }
   (*dest)->server_state_cb           = src->server_state_cb;
   (*dest)->server_state_cb_data      = src->server_state_cb_data;
+  /* With the event thread the library owns the pending write callback */
+  if (!(src->optmask & ARES_OPT_EVENT_THREAD)) {
+    (*dest)->notify_pending_write_cb      = src->notify_pending_write_cb;
+    (*dest)->notify_pending_write_cb_data = src->notify_pending_write_cb_data;
+  }
 
   ares_strcpy((*dest)->local_dev_name, src->local_dev_name,
               sizeof((*dest)->local_dev_name));
